@@ -595,9 +595,7 @@ def subdomain_ids(repo, res):
     res.functions.add(f.key)
     loc = rep.line(f.node)
 
-    class int64(int, PyNative):  # a NumPy integer scalar: an Integral that is not a Python int subclass in numpy; the model keeps arithmetic
-        def __repr__(self):
-            return f"np.int64({int(self)})"
+    from ..npmodel import NPInt as int64
 
     INT_MAX = 2**31 - 1
     samples = [(("otherwise",), None), ((0,), None), ((3, "otherwise"), None), ((0, 7, 12), None), ((INT_MAX,), None), ((int64(5), int64(9)), None),
